@@ -150,6 +150,10 @@ def gen_validity_typing(g: Gen):
             keys.append(k)
     if len(keys) < 100:
         raise NotGenerated(f"only {len(keys)} text-to-text functions found")
+    import json
+    import os
+    vp_path = os.path.join(os.path.dirname(os.path.dirname(os.path.abspath(__file__))), "baseline", "validity_vp.json")
+    known_vp = set(json.load(open(vp_path))) if os.path.exists(vp_path) else set(keys)      # the functions typed valid-preserving on the pinned tree
     n_vp = 0
     for k in keys:
         _, fn = pkg.funcs[k]
@@ -162,6 +166,10 @@ def gen_validity_typing(g: Gen):
         elif len(bad) <= allowed:
             g.assumptions.add(f"{k} builds text itself ({len(bad)} return path(s) outside the typing): validity of its result is bounded only")
             g.oblige("typing", f"no-new-unguarded-return-path:{k}", [], z3.BoolVal(True), fn.lineno)
+        elif allowed == 0 and k not in known_vp:
+            # a function the pinned tree does not have (an extracted helper, say) and that builds text itself: nothing that was guarded has lost
+            # its guard - the functions that call it are judged on their own.  Undecided, never a violation.
+            g.oblige_text("typing", f"returns-valid-text-for-valid-input:{k}", False, fn.lineno)
         else:
             name = f"returns-valid-text-for-valid-input:{k}" if allowed == 0 else f"no-new-unguarded-return-path:{k}"
             g.oblige("typing", name, [], z3.BoolVal(False), fn.lineno,
